@@ -39,6 +39,8 @@ struct G {
     rng: Rng,
     /// earlier generated programs usable as field types: (name, MergeWithError<_> bounds they need)
     earlier: Vec<(String, Reqs)>,
+    /// name of the program being generated (for self-recursive fields)
+    current: Option<String>,
 }
 
 fn word(rng: &mut Rng) -> String {
@@ -263,6 +265,12 @@ impl G {
     fn ty(&mut self, depth: usize) -> (Ty, Reqs) {
         if depth >= 3 {
             return (self.scalar(), Reqs::new());
+        }
+        // self-recursion, always behind Option<Box<_>> or Vec<_> so that finite payloads exist
+        if depth == 0 && self.rng.chance(1, 25) {
+            if let Some(me) = self.current.clone() {
+                return if self.rng.chance(1, 2) { (opt(bx(named(&me))), Reqs::new()) } else { (vec(named(&me)), Reqs::new()) };
+            }
         }
         match self.rng.below(20) {
             0..=7 => (self.scalar(), Reqs::new()),
@@ -508,6 +516,7 @@ impl G {
     fn program(&mut self, idx: usize, control: Option<u8>) -> Program {
         let name = format!("G{idx}");
         let plain = control.is_some();
+        self.current = if plain { None } else { Some(name.clone()) };
         let kind = match control {
             Some(k) => k,
             None => match self.rng.below(9) {
@@ -727,7 +736,7 @@ fn main() {
     let harness = get("--harness", "/verif/harness");
     let pkg = get("--name", "gsub");
 
-    let mut g = G { rng: Rng::derive(seed, 0xC0FFEE, count as u64), earlier: vec![] };
+    let mut g = G { rng: Rng::derive(seed, 0xC0FFEE, count as u64), earlier: vec![], current: None };
     let mut programs = vec![];
     for idx in 0..count {
         // the first three programs are attribute-free controls (plain struct, plain tagged enum, plain unit enum)
